@@ -299,7 +299,130 @@ def random_case(rng, vias=("core",), maxdepth=4):
     return history(rng, via, state, mal, pre=pre)
 
 
-# ------------------------------------------------------------------ proposed known findings (until they are in known_findings.json)
+# ------------------------------------------------------------------ the formerly fatal inputs (repaired classes)
+#
+# Until the repair these documents made GetRulePatterns / LinearState.doFindRules panic (and IndexedState.Add / .Search
+# leave their lock behind). They are ordinary inputs now: every operation of such a history is compared with the model
+# by value (`exact`), and the canaries after it show that the location still serves.
+
+BAD_WHEN = [5, "str", None, [], [1, "a"], True, 0, "?x", "", ["?x", "?y"], [{}],
+            {"pattern": None}, {"pattern": 5}, {"pattern": []}, {"pattern": "p"}, {"pattern": ["?x", "?y"]}, {"pattern": True},
+            {"pattern": [{"a": 1}]}, {"pattern": "?p"}, {"pattern": None, "x": 1}]
+BAD_RULE = [5, "x", None, [], True, [1, {"a": 1}], "?r", 0, "", [[]], -7]
+ACTION = {"code": "(1)", "verif_tmpl": {"t": "lit", "v": 1}}
+
+FF_FOLLOW = [
+    {"op": "getFact", "id": "m"},
+    {"op": "event", "event": {"a": 1}},
+    {"op": "event", "event": {"a": 1, "zz": 1}},
+    {"op": "search", "pattern": {"a": "?q"}, "inherited": False},
+    {"op": "search", "pattern": {"zz": "?x"}, "inherited": False},
+    {"op": "search", "pattern": {"zz": "?x"}, "inherited": True},
+    {"op": "search", "pattern": {"rule": "?r"}, "inherited": False},
+    {"op": "addFact", "id": "m", "fact": {"z": 1}},
+    {"op": "addFact", "id": "m", "fact": {"rule": GOOD_RULE}},
+    {"op": "addRule", "id": "m", "rule": GOOD_RULE},
+    {"op": "remFact", "id": "m"},
+    {"op": "remRule", "id": "m"},
+    {"op": "listRules", "inherited": False},
+    {"op": "listRules", "inherited": True},
+    {"op": "getRule", "id": "m"},
+    {"op": "searchRules", "event": {"a": 1}, "inherited": False},
+    {"op": "event", "event": {"trigger!": "m"}},
+    {"op": "query", "query": {"pattern": {"zz": "?x"}}},
+    {"op": "enableRule", "id": "m", "enable": False},
+    {"op": "enableRule", "id": "m", "enable": True},
+]
+
+def ff_doc(rng, state):
+    """(role, document, expiring?) of one formerly fatal add"""
+    r = rng.random()
+    expiring = rng.random() < 0.15
+    if state == "linear" and r < 0.35 or r < 0.1:
+        # a `rule` value that is not a map (LinearState.doFindRules)
+        fact = {"rule": rng.choice(BAD_RULE), "zz": 1}
+        if expiring:
+            fact["ttl"] = 1
+        return "fact", fact, expiring
+    w = rng.choice(BAD_WHEN)
+    scheduled = rng.random() < 0.5
+    body = {"when": copy.deepcopy(w)}
+    if scheduled:
+        body["schedule"] = rng.choice(["x", GOOD_SCHED, GOOD_SCHED])
+    if rng.random() < 0.7:
+        body["action"] = copy.deepcopy(ACTION)
+    if rng.random() < 0.45:
+        # through AddRule (RuleFromMap first: only null / {"pattern": null} get past it; the others are its syntax errors)
+        if rng.random() < 0.6:
+            body["when"] = rng.choice([None, {"pattern": None}])
+            body.setdefault("action", copy.deepcopy(ACTION))
+        if expiring:
+            body["ttl"] = 1
+        return "rule", body, expiring
+    fact = {"rule": body, "zz": 1}
+    if rng.random() < 0.3:
+        fact["a"] = 1
+    if expiring:
+        fact["ttl"] = 1
+    return "fact", fact, expiring
+
+
+def formerly_fatal_case(rng, vias=("core",)):
+    via = rng.choice(vias)
+    state = rng.choice(["indexed", "indexed", "linear"])
+    role, doc, expiring = ff_doc(rng, state)
+    pre = []
+    r = rng.random()
+    if r < 0.3:
+        pre = [{"op": "addRule", "id": "m", "rule": GOOD_RULE}]          # the bad document overwrites a good rule (rejected: it must stay findable)
+    elif r < 0.45:
+        pre = [{"op": "addFact", "id": "f0", "fact": {"a": 1, "zz": 2}}, {"op": "addRule", "id": "r0", "rule": GOOD_RULE}]
+    elif r < 0.55:
+        pre = [{"op": "addFact", "id": "m", "fact": {"rule": {"schedule": "x", "when": rng.choice(BAD_WHEN)}, "zz": 3}}]   # bad over bad
+    elif r < 0.62 and not expiring:
+        # (not with an expiring document: whether a search still sees the dependent fact then depends on Go's map order)
+        pre = [{"op": "addFact", "id": "dep", "fact": {"zz": 4, "deleteWith": ["m"]}}]
+    mal = [op_of(role, doc)]
+    pool = FF_FOLLOW if via != "http" else [o for o in FF_FOLLOW if o["op"] not in ("getRule", "searchRules", "enableRule")]   # no such endpoints
+    follow = [copy.deepcopy(o) for o in rng.sample(pool, rng.randint(1, 5))]
+    if expiring and rng.random() < 0.8:
+        follow.insert(rng.randint(0, min(1, len(follow))), {"op": "sleep", "ms": 2100})
+    if rng.random() < 0.2:
+        r2, d2, _ = ff_doc(rng, state)
+        o2 = op_of(r2, d2)
+        o2["id"] = rng.choice(["m", "m2"])
+        follow.insert(rng.randint(0, len(follow)), o2)
+    c = history(rng, via, state, mal, follow=follow, pre=pre)
+    for o in c["ops"]:
+        if not o.get("canary"):
+            o["exact"] = True
+    c["family"] = "formerly-fatal"
+    return c
+
+
+def formerly_fatal(rng, n, vias=("core", "core", "core", "sys", "http")):
+    return [formerly_fatal_case(rng, vias) for _ in range(n)]
+
+
+def former_witnesses():
+    """the witnesses of the repaired findings (indexed and linear, core / sys / http): ordinary cases now"""
+    out = []
+    for f in FORMER:
+        for via in ("core", "sys", "http"):
+            for state in ("indexed", "linear"):
+                c = copy.deepcopy(f["witness"])
+                if via == "http" and any(o["op"] in ("getRule", "searchRules", "enableRule") for o in c["ops"]):
+                    continue
+                c.update(via=via, state=state, family="former:" + f["id"])
+                for o in c["ops"]:
+                    if not o.get("canary"):
+                        o["exact"] = True
+                        o["slow"] = True
+                out.append(c)
+    return out
+
+
+# ------------------------------------------------------------------ known findings: proposed entries (fallback while known_findings.json lacks them) and the repaired ones
 
 def _w(via, state, ops):
     ops = copy.deepcopy(ops)
@@ -307,7 +430,8 @@ def _w(via, state, ops):
         o.setdefault("loc", "a")
     return {"kind": "c13.run", "via": via, "state": state, "locs": ["a"], "ops": ops + canaries()}
 
-PROPOSED = [
+# repaired in /repo (known_findings.json lists them under `fixed`): no longer tolerated; the witnesses stay as regression inputs
+FORMER = [
     {"property": "C13", "id": "C13-getrulepatterns-panic",
      "what": "AddFact of a fact whose rule body has a non-map `when` (or `when.pattern`) panics in GetRulePatterns (unchecked type assertion); "
              "inside IndexedState.Add the write lock is released without defer, so the location blocks every later request",
@@ -340,7 +464,10 @@ PROPOSED = [
              "the read lock is released by defer, other operations keep working",
      "class": "panic at site (LinearState.doFindRules, panic(fmt.Errorf(\"rule %#v bad type\", rule)))",
      "site": "LinearState.doFindRules",
-     "witness": _w("core", "linear", [{"op": "addFact", "id": "m", "fact": {"rule": 5}}, {"op": "event", "event": {"a": 1}}])},
+     "witness": _w("core", "linear", [{"op": "addFact", "id": "m", "fact": {"rule": 5}}, {"op": "event", "event": {"a": 1}}])}
+]
+
+PROPOSED = [
     {"property": "C13", "id": "C13-unvalidated-rule-fact",
      "what": "AddFact stores a fact whose `rule` value is not a valid rule (and AddRule a rule whose `when` has members but no `pattern`: the states then "
              "use the whole `when` map as the pattern); every later event that reaches it fails as a whole with that rule's error, so the other rules "
@@ -508,6 +635,20 @@ def compare(case, impl, model, known):
         if icls == "hang":
             # explained by the model's lock state (a leak left by a listed panic)
             st["hang_explained"] += 1
+            continue
+        if op.get("exact") and not canary and mo.get("sure", True) and op["op"] != "sleep":
+            # a formerly fatal input or an operation after one: an ordinary input now, compared by value
+            if icls == "err":
+                # (the cron hooks of a System and the HTTP front end have error texts of their own)
+                same = via == "http" or io.get("err") == mo.get("err") or (via == "sys" and mo.get("err") == "hook")
+            elif op["op"] == "event":
+                same = tree_summary(op, io) == tree_summary(op, mo)
+            else:
+                same = value_of(op, io) == value_of(op, mo)
+            if not same:
+                res["issues"].append((k, "value", "answers differ: impl=%s model=%s" % (brief(io), json.dumps(mo)[:240])))
+                break
+            st["exact_agree"] += 1
             continue
         if canary:
             if icls == "err":
